@@ -63,10 +63,19 @@ func libVerify(msg, sig []byte, pk [67]byte, w uint32) string {
 
 // compare runs library and reference on one triple and reports a disagreement.
 func compare(c *drv.Ctx, i int64, fam, what string, msg, sig []byte, pk [67]byte, mustReject bool) {
+	compareW(c, i, fam, what, msg, sig, pk, mustReject, 0)
+}
+
+// compareW: w = 0 is xmss.Verify; otherwise VerifyWithCustomWOTSParamW(w) against the reference verifier for that w.
+func compareW(c *drv.Ctx, i int64, fam, what string, msg, sig []byte, pk [67]byte, mustReject bool, w uint32) {
 	c.Eval(1)
 	m0, s0 := append([]byte(nil), msg...), append([]byte(nil), sig...)
-	lib := libVerify(msg, sig, pk, 0)
-	ref := refxmss.Verify(m0, s0, pk[:], 16)
+	lib := libVerify(msg, sig, pk, w)
+	rw := int(w)
+	if rw == 0 {
+		rw = 16
+	}
+	ref := refxmss.Verify(m0, s0, pk[:], rw)
 	c.Outcome(fmt.Sprintf("lib=%.12s ref=%v", lib, ref))
 	if (lib == "true") != ref {
 		key := fmt.Sprintf("%s:lib-%s-ref-%v", fam, short(lib), ref)
@@ -357,6 +366,107 @@ func main() {
 					what += " height nibble changed"
 				}
 				compare(c, i, "fabricated-deviation", what, m2, s2, pk, true)
+			}
+		}})
+	// index fields beyond the tree
+	oorH := []int{4, 6, 10, 16, 30}
+	ck.Domains = append(ck.Domains, &drv.Domain{Name: "fabricated-index-beyond-tree", Size: int64(len(oorH)) * 3 * 5 * 2, Chunk: 5,
+		Desc: "triples fabricated by the reference whose index field names a leaf the declared height does not have (2^h, 2^h+5, 3*2^h+1, 2^31+2^h, 2^32-1; the verification walk uses node index = idx >> level at every level, root level included) for heights 4,6,10,16,30 x 3 hash functions: library verdict == reference verdict, also with the index reduced mod 2^h (rejected by both)",
+		Run: func(c *drv.Ctx, lo, hi int64) {
+			for i := lo; i < hi; i++ {
+				c.At(i)
+				k := int(i)
+				dev := k % 2
+				k /= 2
+				ik := k % 5
+				k /= 5
+				hf := k % 3
+				h := oorH[k/3]
+				top := uint32(1) << uint(h)
+				idx := []uint32{top, top + 5, 3*top + 1, 1<<31 + top, 0xFFFFFFFF}[ik]
+				msg := []byte(fmt.Sprintf("fabricated beyond h=%d idx=%d", h, idx))
+				mat := seeds.Bytes(96+32*30, fmt.Sprint("fab-oor", h, hf, ik), c.Seed)
+				sig, pkb := refxmss.Fabricate(refxmss.Hash(hf), h, idx, msg, mat[0:32], mat[32:64], mat[64:96], func(t int) []byte { return mat[96+32*t : 128+32*t] })
+				var pk [67]byte
+				copy(pk[:], pkb)
+				what := fmt.Sprintf("fabricated h=%d hash=%d idx=%d (>= 2^h)", h, hf, idx)
+				if dev == 0 {
+					if !refxmss.Verify(msg, sig, pkb, 16) {
+						c.Fail(i, "fabricated:reference-rejects-its-own-construction(infrastructure)", map[string]any{"case": what})
+						continue
+					}
+					compare(c, i, "index-beyond-tree", what, msg, sig, pk, false)
+					c.Nontrivial(1)
+					continue
+				}
+				s2 := append([]byte(nil), sig...)
+				r := idx & (top - 1)
+				s2[0], s2[1], s2[2], s2[3] = byte(r>>24), byte(r>>16), byte(r>>8), byte(r)
+				compare(c, i, "index-beyond-tree-deviation", what+" index reduced mod 2^h", msg, s2, pk, true)
+			}
+		}})
+	// the custom-w entry point with other Winternitz parameters
+	ws := []int{4, 16, 256}
+	ck.Domains = append(ck.Domains, &drv.Domain{Name: "custom-w", Size: 3 * 2 * 3 * 3 * 7, Chunk: 7,
+		Desc: "VerifyWithCustomWOTSParamW(w) for w in {4,16,256} against the reference verifier with the same w: reference-fabricated valid triples (heights 4,10 x 3 hash functions x indices 0,5,2^h-1) and 6 deviations each (a w'=other signature padded/cut to this w's length; bit flips in the first message chain, the last message chain, each checksum chain region, the message; the same triple under another w)",
+		Run: func(c *drv.Ctx, lo, hi int64) {
+			for i := lo; i < hi; i++ {
+				c.At(i)
+				k := int(i)
+				dev := k % 7
+				k /= 7
+				ik := k % 3
+				k /= 3
+				hf := k % 3
+				k /= 3
+				h := []int{4, 10}[k%2]
+				w := ws[k/2]
+				idx := []uint32{0, 5, uint32(1)<<uint(h) - 1}[ik]
+				msg := []byte(fmt.Sprintf("custom w=%d h=%d idx=%d", w, h, idx))
+				mat := seeds.Bytes(96+32*30, fmt.Sprint("fab-w", w, h, hf, ik), c.Seed)
+				auth := func(t int) []byte { return mat[96+32*t : 128+32*t] }
+				sig, pkb := refxmss.FabricateW(refxmss.Hash(hf), h, idx, msg, mat[0:32], mat[32:64], mat[64:96], auth, w)
+				var pk [67]byte
+				copy(pk[:], pkb)
+				what := fmt.Sprintf("w=%d h=%d hash=%d idx=%d", w, h, hf, idx)
+				p := refxmss.NewWOTS(w)
+				s2 := append([]byte(nil), sig...)
+				m2 := msg
+				lw := uint32(w)
+				switch dev {
+				case 0:
+					if !refxmss.Verify(msg, sig, pkb, w) {
+						c.Fail(i, "custom-w:reference-rejects-its-own-construction(infrastructure)", map[string]any{"case": what})
+						continue
+					}
+					compareW(c, i, "custom-w", what, msg, sig, pk, false, lw)
+					c.Nontrivial(1)
+					continue
+				case 1:
+					// a signature for another w (same key material) padded / cut to this w's length
+					ow := ws[(k/2+1)%3]
+					os, _ := refxmss.FabricateW(refxmss.Hash(hf), h, idx, msg, mat[0:32], mat[32:64], mat[64:96], auth, ow)
+					s2 = make([]byte, len(sig))
+					copy(s2, os)
+					what += fmt.Sprintf(" carrying the bytes of a w=%d signature", ow)
+				case 2:
+					s2[36] ^= 1
+					what += " first message chain bit flipped"
+				case 3:
+					s2[36+32*(p.Len1-1)+31] ^= 0x80
+					what += " last message chain bit flipped"
+				case 4:
+					s2[36+32*p.Len1] ^= 1
+					what += " first checksum chain bit flipped"
+				case 5:
+					s2[36+32*(p.Len-1)+7] ^= 4
+					what += " last checksum chain bit flipped"
+				case 6:
+					m2 = append([]byte(nil), msg...)
+					m2[0] ^= 1
+					what += " message bit flipped"
+				}
+				compareW(c, i, "custom-w-deviation", what, m2, s2, pk, true, lw)
 			}
 		}})
 	// descriptor sweep
